@@ -14,7 +14,8 @@ TRUSTED = ["independent Python oracle of the property text (harness/props/names_
 ASSUMPTIONS = ["characters are compared by code point; CPython's flags are not consulted by the splitter"]
 
 FIRST = ["Ab", "Donald", "{von Neumann}", "J.", "\\'Etienne", "Émile", "{\\'E}mile", "and", "And", "de", "Anderson", "band", "an", "d",
-         "Ǆ", "x\\", "{and}", "Strand~and", "o{r}", "}", "{"] + nc.UNI_EDGE
+         "Ǆ", "x\\", "{and}", "Strand~and", "o{r}", "}", "{", "{Simon and Schuster}", "{Barnes and Noble}, Inc.", "{a and b} c",
+         "\\{x and y\\}"] + nc.UNI_EDGE
 GLUE = [" and ", " AND ", " aNd ", "  and\t", "\nand\n", " and\r\n", ", ", " ", "~", " and~", "~and ", " and and ", " and ",
         " and ", " , ", " an d ", " a nd ", " \\and ", " and} ", " {and} "]
 
